@@ -370,6 +370,31 @@ var (
 	benignParts = []string{"host", "h", "box", "my-host", "a-b", "web_1", "h=1", "x=y", "ho st", "a b", "10.0.0.1", "h.example.org", "=", "a=-b", "é", "c%41", "name--x", "+x", "\\-x", "'q'", "\"q\"", "$(id)", "a;b", "a|b", "*"}
 )
 
+// wrappers a parser or transport might normalise away before building argv
+// (SCP-style brackets, surrounding whitespace, quotes, a trailing dot)
+var c36Wrappers = []string{"[%s]", " %s", "%s ", "\t%s", "'%s'", "\"%s\"", "[%s].", " [%s] ", "[[%s]]", "(%s)", "<%s>"}
+
+func c36Wrap(s string, k int) string {
+	return fmt.Sprintf(c36Wrappers[k%len(c36Wrappers)], s)
+}
+
+// c36Canon strips such wrappers: what a normalising transport could end up passing.
+func c36Canon(s string) string {
+	for {
+		t := strings.TrimRight(strings.TrimSpace(s), ".")
+		if len(t) >= 2 {
+			switch t[:1] + t[len(t)-1:] {
+			case "[]", "''", "\"\"", "()", "<>":
+				t = t[1 : len(t)-1]
+			}
+		}
+		if t == s {
+			return s
+		}
+		s = t
+	}
+}
+
 func c36Component(rng *rand.Rand, hostileBias int) string {
 	if rng.Intn(100) < hostileBias {
 		s := hostileLeads[rng.Intn(len(hostileLeads))]
@@ -378,6 +403,9 @@ func c36Component(rng *rand.Rand, hostileBias int) string {
 			s += benignParts[rng.Intn(len(benignParts))]
 		case 1:
 			s += " " + benignParts[rng.Intn(len(benignParts))]
+		}
+		if rng.Intn(3) == 0 {
+			s = c36Wrap(s, rng.Intn(len(c36Wrappers)))
 		}
 		return s
 	}
@@ -398,6 +426,9 @@ func c36Generate(r *vk.Run, n, systematicLeads int) []c36Case {
 	for _, li := range rng.Perm(len(hostileLeads))[:systematicLeads] {
 		l := hostileLeads[li]
 		plan = append(plan, forced{l, "host"}, forced{l, "box"}, forced{"", l}, forced{"", l})
+		// the same lead hidden in a wrapper: SSH user, Docker container, SSH host, Docker user
+		w := c36Wrap(l, li)
+		plan = append(plan, forced{w, "host"}, forced{"", w}, forced{"", c36Wrap(l, li+1)}, forced{w, "box"})
 	}
 	for i := 0; i < n; i++ {
 		c := c36Case{Index: i, Script: recScript{Mode: "posix", Home: "/home/u", User: "root", Group: "staff"}}
@@ -489,7 +520,7 @@ func c36Judge(res *c36Result, h, c recRecord) (problem string, consumed bool) {
 		switch {
 		case !sameStrings(hp.Opts, cp.Opts):
 			return fmt.Sprintf("ssh parses options %q, the transport intends %q", hp.Opts, cp.Opts), true
-		case !hp.HasDest || hp.Destination != target:
+		case !hp.HasDest || !c36SameOperand(hp.Destination, target):
 			return fmt.Sprintf("ssh takes %q as destination, the URL says %q", hp.Destination, target), true
 		case !sameStrings(hp.Command, cp.Command):
 			return fmt.Sprintf("ssh runs remote command %q instead of %q", hp.Command, cp.Command), false
@@ -500,7 +531,7 @@ func c36Judge(res *c36Result, h, c recRecord) (problem string, consumed bool) {
 		switch {
 		case !sameStrings(hp.Opts, cp.Opts):
 			return fmt.Sprintf("scp parses options %q, the transport intends %q", hp.Opts, cp.Opts), true
-		case !sameStrings(hp.Operands, want):
+		case !c36SameOperands(hp.Operands, want):
 			return fmt.Sprintf("scp operands %q, intended %q", hp.Operands, want), false
 		}
 	case "docker":
@@ -514,7 +545,7 @@ func c36Judge(res *c36Result, h, c recRecord) (problem string, consumed bool) {
 		}
 		switch hp.Sub {
 		case "exec":
-			if len(hp.Operands) == 0 || hp.Operands[0] != res.Host {
+			if len(hp.Operands) == 0 || !c36SameOperand(hp.Operands[0], res.Host) {
 				return fmt.Sprintf("docker exec takes %q as container, the URL says %q", first(hp.Operands), res.Host), true
 			}
 			// the command is compared as text: the transport splits it on spaces
@@ -522,12 +553,52 @@ func c36Judge(res *c36Result, h, c recRecord) (problem string, consumed bool) {
 				return fmt.Sprintf("docker exec runs %q instead of %q", hp.Operands[1:], substAll(cp.Operands[1:], rep)), false
 			}
 		default:
-			if want := substAll(cp.Operands, rep); !sameStrings(hp.Operands, want) {
+			if want := substAll(cp.Operands, rep); !c36SameOperands(hp.Operands, want) {
 				return fmt.Sprintf("docker %s operands %q, intended %q", hp.Sub, hp.Operands, want), true
 			}
 		}
 	}
 	return "", false
+}
+
+// c36SameOperand: the operand is the URL component, verbatim or with wrappers
+// (brackets, quotes, surrounding blanks, trailing dot) normalised away per part.
+func c36SameOperand(operand, component string) bool {
+	if operand == component {
+		return true
+	}
+	canonParts := func(s string) string {
+		parts := strings.Split(s, "@")
+		for i := range parts {
+			parts[i] = c36Canon(parts[i])
+		}
+		return c36Canon(strings.Join(parts, "@"))
+	}
+	return canonParts(operand) == canonParts(component)
+}
+
+// c36SameOperands compares operand lists; a "target:path" operand may carry a
+// wrapper-normalised target.
+func c36SameOperands(got, want []string) bool {
+	if len(got) != len(want) {
+		return false
+	}
+	for i := range got {
+		if got[i] == want[i] {
+			continue
+		}
+		gi, wi := strings.LastIndex(got[i], ":"), strings.LastIndex(want[i], ":")
+		if gi < 0 || wi < 0 {
+			if !c36SameOperand(got[i], want[i]) {
+				return false
+			}
+			continue
+		}
+		if got[i][gi:] != want[i][wi:] || !c36SameOperand(got[i][:gi], want[i][:wi]) {
+			return false
+		}
+	}
+	return true
 }
 
 func first(s []string) string {
@@ -541,7 +612,7 @@ func c36() {
 	r := vk.Start("C36", "exploration")
 	// every case costs 2 (ssh) to 6 (docker) process starts of this binary
 	n := r.Pick(120, 1200)
-	cases := c36Generate(r, n, r.Pick(16, len(hostileLeads)))
+	cases := c36Generate(r, n, r.Pick(10, len(hostileLeads)))
 	scratch := r.Scratch()
 	fakeDir := filepath.Join(scratch, "fakebin")
 	must(os.MkdirAll(fakeDir, 0o755))
@@ -612,6 +683,8 @@ func c36() {
 				return "--"
 			case strings.HasPrefix(s, "-"):
 				return "-"
+			case strings.HasPrefix(c36Canon(s), "-"):
+				return "wrapped-" + s[:1]
 			}
 			return "plain"
 		}
@@ -685,7 +758,7 @@ func c36() {
 				} else if res.User != "" {
 					token, component = res.User+"@"+res.Host, "user"
 				}
-				if consumed && strings.HasPrefix(token, "-") {
+				if consumed && strings.HasPrefix(c36Canon(token), "-") {
 					sig["rule"], sig["component"] = "component-parsed-as-option", component
 				} else {
 					sig["rule"], sig["operation"] = "argv-differs-from-intent", op.Name
@@ -713,6 +786,8 @@ func c36() {
 			}
 			if strings.HasPrefix(res.User, "-") || strings.HasPrefix(res.Host, "-") {
 				r.Count("accepted_with_leading_dash_component", 1)
+			} else if strings.HasPrefix(c36Canon(res.User), "-") || strings.HasPrefix(c36Canon(res.Host), "-") {
+				r.Count("accepted_with_wrapped_leading_dash_component", 1)
 			}
 		}
 	}
